@@ -133,7 +133,7 @@ pub fn site(rng: &mut Rng, is_span: Option<bool>, max_fields: usize) -> Site {
         _ => rng.range(0, max_fields.min(4)),
     };
     // incl. near misses of the `::` boundary rule (single colon, trailing separators)
-    let targets = ["app", "app::db", "app::dbx", "other", "", "app::db::pool", "app:db", "app:", "app::", "apps", "my-app", "my_app", "my_app::db"];
+    let targets = ["app", "app::db", "app::dbx", "other", "", "app::db::pool", "app:db", "app:", "app::", "apps", "my-app", "my_app", "my_app::db", "app::größe::io", "app::größe"];
     Site {
         is_span: is_span.unwrap_or_else(|| rng.chance(1, 2)),
         level: rng.below(5) as u8,
